@@ -185,6 +185,22 @@ Example C15_nonvacuous_cover :
   rank infos 12 1000%N = 13%nat /\ covered infos 12 nows /\ ~ covered infos 12 (firstn 6 nows).
 Proof. cbv zeta. split; [vm_compute; reflexivity|]. split; vm_compute; intuition discriminate. Qed.
 
+(* a file deleted since the last sync: its slot is DELETED (invalid parity, no file, nothing read), the synced file
+   of the other disk hashes equal, the parity (still holding the deleted data) differs: the slot makes the stripe
+   unsynced, so this is a file error, not damage -- word unchanged, no bad mark (also with a REP or CHG slot) *)
+Example C15_nonvacuous_deleted :
+  let clean := {| dt_disk := true; dt_block := BLOCK_BLK; dt_ts_diff := false; dt_state := TASK_DONE; dt_hash_eq := true |} in
+  let gone := {| dt_disk := true; dt_block := BLOCK_DELETED; dt_ts_diff := false; dt_state := TASK_DONE; dt_hash_eq := true |} in
+  let rep := {| dt_disk := true; dt_block := BLOCK_REP; dt_ts_diff := false; dt_state := TASK_DONE; dt_hash_eq := true |} in
+  let chg := {| dt_disk := true; dt_block := BLOCK_CHG; dt_ts_diff := false; dt_state := TASK_DONE; dt_hash_eq := false |} in
+  let stale := {| pt_state := TASK_DONE; pt_equal := false |} in
+  let c0 := {| c_error := 0; c_silent := 0; c_io := 0 |}%N in
+  d_unsynced gone = true /\ d_file gone = false /\ d_unsynced rep = true /\ d_unsynced chg = true /\
+  damaged [clean; gone] [stale] = false /\ damaged [clean; rep] [stale] = false /\ damaged [clean; chg] [stale] = false /\
+  damaged [clean; clean] [stale] = true /\
+  scrub_stripe 100 c0 [clean; gone] [stale; stale] 164 1000 = Some (164%N, {| c_error := 2; c_silent := 0; c_io := 0 |}%N).
+Proof. cbv zeta. repeat split; vm_compute; reflexivity. Qed.
+
 Print Assumptions C15_bad_always.
 Print Assumptions C15_default_scrub_covers.
 Print Assumptions C15_auto_exact.
